@@ -182,6 +182,9 @@ def array_cases(rec, hub, rng, tier, i):
 
     nd = 1 + i % 3
     tdim = fd.Dimension(letter="t", name="time", items=[2000, 2005, 2010, 2020][: int(rng.integers(2, 5))], dtype=int)
+    if i % 5 == 3:
+        # years (or codes) kept as TEXT: they are labels, shown as they are
+        tdim = fd.Dimension(letter="t", name="time", items=[["2000", "2005", "2010", "2020"], ["007", "7", "70", "0.7"]][int(rng.integers(0, 2))][: int(rng.integers(2, 5))], dtype=str)
     rdim = fd.Dimension(letter="r", name="region", items=["EUR", "USA", "CHN"][: int(rng.integers(1, 4))], dtype=str)
     gdim = fd.Dimension(letter="g", name="good", items=["car", "bus", "bike", "van"][: int(rng.integers(2, 5))], dtype=str)
     all_dims = [tdim, rdim, gdim][:nd] if rng.random() < 0.5 else [tdim, gdim, rdim][:nd]
@@ -314,10 +317,12 @@ def earlier_figures_unchanged(rec, plt):
 
 
 def _norm(v):
+    if isinstance(v, (str, np.str_)):
+        return "text:" + str(v)  # a text label stays the text it is, also when it is made of digits ("007" is not 7)
     try:
         return float(v)
     except (TypeError, ValueError):
-        return str(v)
+        return "text:" + str(v)
 
 
 def judge_figure(rec, fd, plotter_name, chart, fig, arr, L, dims, xl, sl, ll, x_arr, sig, skip=None, disp=None):
